@@ -18,6 +18,8 @@ def answer (line : String) : String :=
     | "fabfault" => fabFaultLine toks
     | "ldfab" => ldfabLine toks
     | "aoarm" => aoarmLine toks
+    | "aoown" => aoownLine toks
+    | "heap" => heapLine toks
     | "ao" => aoLine toks
     | "ps" => psLine toks
     | "qspy" => qspyLine toks
